@@ -708,32 +708,26 @@ func oracle(stream, in, out string) {
 	o := wire.Create(out)
 	defer o.Close()
 	s := newState()
-	verdict := ""
+	var v verdicts
 	started := false
 	caseNo := 0
 	flush := func() {
 		if started {
-			if verdict == "" {
-				verdict = "OK"
-			}
-			o.Line(verdict)
+			o.Line(v.line())
 		}
-		verdict = ""
+		v = verdicts{}
 	}
 	check := func(q request) {
-		if verdict != "" {
-			return
-		}
 		defer func() {
 			if r := recover(); r != nil {
-				verdict = "FAIL crash"
+				v.fail("crash", "req")
 			}
 		}()
 		got := evalRoutes(s.routes, q)
 		want, rule := s.vsSpec(q)
 		if showDecision(got) != want {
-			verdict = fmt.Sprintf("FAIL %s want=%s got=%s req=%s|%s|%s|%s|%s|%s", s.classify(q, got, rule), want, showDecision(got),
-				wire.Enc(q.path), encPairs(q.query), wire.Enc(q.method), wire.Enc(q.authority), wire.Enc(q.scheme), encPairs(q.headers))
+			v.fail(s.classify(q, got, rule), fmt.Sprintf("want=%s got=%s req=%s|%s|%s|%s|%s|%s", want, showDecision(got),
+				wire.Enc(q.path), encPairs(q.query), wire.Enc(q.method), wire.Enc(q.authority), wire.Enc(q.scheme), encPairs(q.headers)))
 		}
 	}
 	for _, f := range lines {
@@ -748,7 +742,7 @@ func oracle(stream, in, out string) {
 			func() {
 				defer func() {
 					if r := recover(); r != nil {
-						verdict = "FAIL crash"
+						v.fail("crash", "build")
 					}
 				}()
 				s.build(atoi(f[1]))
